@@ -76,7 +76,8 @@ func runC13(e *Engine, g G, o RunOpt) RunInfo {
 		sc.Rounds = append(sc.Rounds, rd)
 	}
 	if g.Pct("stop-early", 20) {
-		sc.StopEarlyMs = []int{0, 0, 0, 1, 7, 20, 45, 170, 1300, 16000}[g.N("stop-early-ms", 10)] + 1
+		// 1: at the instant the new session is up; 2: at the instant of the next connection attempt
+		sc.StopEarlyMs = []int{0, 0, 0, 1, 1, 7, 20, 45, 170, 1300, 16000}[g.N("stop-early-ms", 11)] + 1
 	}
 	sc.Seg, sc.LatencyNs = netModes(g, e)
 	if sc.LatencyNs > int64(10*time.Millisecond) {
@@ -264,6 +265,10 @@ func runC13(e *Engine, g G, o RunOpt) RunInfo {
 				if sc.StopEarlyMs == 1 {
 					// ... at the very moment the server sees the new session come up
 					e.WaitUntilFor("stop-at-reestablishment", 30*time.Minute, func() bool { return len(established()) > nEst })
+				} else if sc.StopEarlyMs == 2 {
+					// ... at the very moment a back-off wait is over and the next attempt starts
+					k := 1 + len(rd.Attempts)/2
+					e.WaitUntilFor("stop-at-attempt", 30*time.Minute, func() bool { return e.Net.Dials >= dialsBefore+k })
 				} else {
 					e.Sleep(time.Duration(sc.StopEarlyMs)*time.Millisecond + 13*time.Microsecond)
 				}
